@@ -563,3 +563,94 @@ Proof.
       * exists (EStart j). split; auto. unfold step, step_start. rewrite I11, Hn. discriminate.
       * exists (EDone j). split; auto. unfold step, step_done. rewrite I11, Hn. discriminate.
 Qed.
+
+(* ------------------------------------------------------------------ reachability *)
+Definition reachable (n w q : nat) (s : st) : Prop := exists evs, run (init n w q) evs = Some s.
+
+Lemma run_preserves n w q evs : forall s s',
+  Inv n w q s -> Cons s -> run s evs = Some s' -> Inv n w q s' /\ Cons s'.
+Proof.
+  induction evs as [|e r IH]; intros s s' HI HC Hr; cbn in Hr.
+  - injection Hr as <-. auto.
+  - destruct (step s e) as [s1|] eqn:Hs; try discriminate.
+    apply (IH s1); auto. eapply Inv_step; eauto. eapply Cons_step; eauto.
+Qed.
+
+Lemma reachable_inv n w q s : reachable n w q s -> Inv n w q s /\ Cons s.
+Proof. intros [evs Hr]. eapply run_preserves; eauto. apply Inv_init. apply Cons_init. Qed.
+
+Lemma run_app evs1 : forall evs2 s s1 s2, run s evs1 = Some s1 -> run s1 evs2 = Some s2 -> run s (evs1 ++ evs2) = Some s2.
+Proof.
+  induction evs1 as [|e r IH]; intros evs2 s s1 s2 H1 H2; cbn in *.
+  - injection H1 as <-. auto.
+  - destruct (step s e); try discriminate. eauto.
+Qed.
+
+Lemma reachable_run n w q s evs s' : reachable n w q s -> run s evs = Some s' -> reachable n w q s'.
+Proof. intros [e0 H0] Hr. exists (e0 ++ evs). eapply run_app; eauto. Qed.
+
+(* ------------------------------------------------------------------ progress *)
+Lemma stop_called_stable s e s' : stop s <> TNotCalled -> step s e = Some s' -> stop s' <> TNotCalled.
+Proof.
+  intros Hn Hs. unfold step in Hs. destruct (crashed s); try discriminate.
+  destruct e;
+  unfold step_arrive, step_pop, step_drop, step_enq, step_take, step_start, step_done, step_exit,
+         step_drainsub, step_brokerunsub, step_checkdrained, step_barrier in Hs;
+  dmatch; inv_some; cbn; try congruence.
+Qed.
+
+Lemma stop_called_run evs : forall s s', stop s <> TNotCalled -> run s evs = Some s' -> stop s' <> TNotCalled.
+Proof.
+  induction evs as [|e r IH]; intros s s' Hn Hr; cbn in Hr.
+  - injection Hr as <-. auto.
+  - destruct (step s e) as [s1|] eqn:Hs; try discriminate. apply (IH s1); auto. eapply stop_called_stable; eauto.
+Qed.
+
+Lemma returned_both n w q s : Inv n w q s -> serve s = SReturned -> stop s = TReturned.
+Proof. intros (I1 & _) Hs. rewrite Hs in I1. exact I1. Qed.
+
+(** no deadlock: once Stop has been called, some step of the system itself is enabled until both
+    Stop and Serve have returned *)
+Lemma progress_enabled n w q s :
+  reachable n w q s -> 1 <= w -> stop s <> TNotCalled ->
+  (serve s = SReturned /\ stop s = TReturned) \/ exists e, internal e = true /\ step s e <> None.
+Proof.
+  intros Hr Hw Hst. destruct (reachable_inv _ _ _ _ Hr) as [HI HC].
+  destruct (serve s) eqn:Hsv; try (right; eapply enabled_exists; eauto; congruence).
+  left. split; auto. eapply returned_both; eauto.
+Qed.
+
+(** every schedule: a run of system steps that cannot be extended has Stop and Serve returned *)
+Lemma maximal_runs_return n w q s evs s' :
+  reachable n w q s -> 1 <= w -> stop s <> TNotCalled ->
+  run s evs = Some s' ->
+  (forall e, internal e = true -> step s' e = None) ->
+  serve s' = SReturned /\ stop s' = TReturned.
+Proof.
+  intros Hr Hw Hst Hrun Hmax.
+  assert (reachable n w q s') as Hr' by (eapply reachable_run; eauto).
+  assert (stop s' <> TNotCalled) as Hst' by (eapply stop_called_run; eauto).
+  destruct (progress_enabled _ _ _ _ Hr' Hw Hst') as [H|[e [Hi He]]]; auto.
+  rewrite (Hmax e Hi) in He. congruence.
+Qed.
+
+(** and such a run exists, of length at most [measure s] *)
+Lemma can_return n w q : 1 <= w -> forall k s,
+  measure s <= k -> reachable n w q s -> stop s <> TNotCalled ->
+  exists evs s', forallb internal evs = true /\ run s evs = Some s'
+                 /\ serve s' = SReturned /\ stop s' = TReturned /\ length evs <= measure s.
+Proof.
+  intros Hw. induction k as [|k IH]; intros s Hk Hr Hst.
+  - destruct (progress_enabled _ _ _ _ Hr Hw Hst) as [[H1 H2]|[e [Hi He]]].
+    + exists [], s. cbn. repeat split; auto. lia.
+    + destruct (step s e) as [s1|] eqn:Hs; try congruence.
+      pose proof (measure_decreases _ _ _ Hi Hs). lia.
+  - destruct (progress_enabled _ _ _ _ Hr Hw Hst) as [[H1 H2]|[e [Hi He]]].
+    + exists [], s. cbn. repeat split; auto. lia.
+    + destruct (step s e) as [s1|] eqn:Hs; try congruence.
+      pose proof (measure_decreases _ _ _ Hi Hs) as Hm.
+      destruct (IH s1) as (evs & s' & Hall & Hrun & Hsv & Hsp & Hlen); try lia.
+      * apply (reachable_run n w q s [e] s1); auto. cbn. rewrite Hs. reflexivity.
+      * eapply stop_called_stable; eauto.
+      * exists (e :: evs), s'. cbn [forallb run length]. rewrite Hi, Hs. repeat split; auto. lia.
+Qed.
